@@ -155,6 +155,22 @@ func init() {
 					case "DeleteAll", "Delete":
 						nDel++
 						x.guardedSite(k+" delete-row-when-not-attached", c, []Cmp{isFalse(attached)}, nil)
+						// … and only the detaching client's row: the key of the delete is computed from the client record
+						var ciParam *ssa.Parameter
+						for _, pm := range fn.Params {
+							if pt, isP := pm.Type().(*types.Pointer); isP && isNamed(pt.Elem(), x.P.Named(dbPkg+".ClientInfo")) {
+								ciParam = pm
+							}
+						}
+						scoped := false
+						if ciParam != nil {
+							for _, a := range c.Common().Args {
+								if prog.DependsOn(a, func(w ssa.Value) bool { return w == ssa.Value(ciParam) }) {
+									scoped = true
+								}
+							}
+						}
+						x.check(scoped, k+" delete-only-the-client's-row", x.pos(c), "the delete is keyed by the detaching client", "the version-vector rows deleted on detach are not selected by the detaching client: one client's detach wipes the rows of every client of the document, the minimum vector no longer accounts for attached clients that have not synced since, and tombstones they still need are purged")
 					case "Insert":
 						nIns++
 						x.guardedSite(k+" upsert-row-when-attached", c, []Cmp{isTrue(attached)}, nil)
